@@ -84,11 +84,27 @@ theorem seed_expands_dots (a b : String) (v : Val)
 
 theorem setOnInsert_only_on_insert (spec now body : Val) (d : Val) :
     applyUpdate spec (.doc [("$setOnInsert", body)]) now false d = .ok d ∧
-    applyUpdate spec (.doc [("$setOnInsert", body)]) now true d = updateFields .set now body d := by
+    applyUpdate spec (.doc [("$setOnInsert", body)]) now true d =
+      applyUpdate spec (.doc [("$set", body)]) now true d ∧
+    (positionalUpdate [("$setOnInsert", body)] = false →
+      applyUpdate spec (.doc [("$setOnInsert", body)]) now true d = updateFields .set now body d) := by
   have h1 : updaterOf "$setOnInsert" = none := by decide +kernel
-  constructor
-  · simp [applyUpdate, applyOps, h1]
-  · simp only [applyUpdate, applyOps, h1]
+  have h2 : updaterOf "$set" = some .set := by decide +kernel
+  have hp : positionalUpdate [("$set", body)] = positionalUpdate [("$setOnInsert", body)] := by
+    simp [positionalUpdate, positionalOperators]
+  refine ⟨?_, ?_, ?_⟩
+  · simp only [applyUpdate]
+    split <;> simp [applyOps, applyOpsPos, h1]
+  · simp only [applyUpdate, hp]
+    split
+    · simp only [applyOpsPos, h1, h2]
+      simp only [show ("$setOnInsert" = "$rename") = False by decide, if_false, if_true,
+        Bool.not_true, Bool.false_eq_true]
+    · simp only [applyOps, h1, h2]
+      simp only [show ("$setOnInsert" = "$rename") = False by decide, if_false, if_true,
+        Bool.not_true, Bool.false_eq_true]
+  · intro hpos
+    simp only [applyUpdate, hpos, Bool.false_eq_true, if_false, applyOps, h1]
     simp only [show ("$setOnInsert" = "$rename") = False by decide, if_false, if_true, Bool.not_true,
       Bool.false_eq_true, bind, Except.bind]
     cases updateFields .set now body d <;> rfl
